@@ -1264,14 +1264,47 @@ def r1516(ctx, rep):
                         y = bb[k] if k < len(bb) else "<missing>"
                         if x != y:
                             diffs.append((k, ba[k] if k < len(ba) else "<missing>", y))
-                    # the documented exception: clearing free_xl in the upper branch of the rotation loop is behaviour-neutral
-                    if all(("free_xl" in d[1] or "free_xu" in d[1] or "free_xl" in d[2] or "free_xu" in d[2]) for d in diffs):
-                        rep.ok("R15.16", desc + " (differ only in the free_* bookkeeping, see the OBSERVATION note)")
+                    # the one documented exception (upstream oddity, see the OBSERVATION note): the
+                    # upper block of the rotation loop of the constrained solver clears free_xl
+                    if f.local == "constrained_tangential_byrd_omojokun" and "t_xu" in tb and len(diffs) == 1 and diffs[0][1] == "free_xl[i_new] = False" and diffs[0][2] == "free_xl[i_new] = False":
+                        rep.ok("R15.16", desc + " (upper block clears free_xl: known, behaviour-neutral oddity)")
                         continue
                     rep.bad("R15.16", desc)
                     k, xa, yb = diffs[0]
                     rep.finding("R15.16", f, f"{xa[:60]} / {yb[:60]}", (b.body[k].lineno if k < len(b.body) else b.lineno),
                                 f"the blocks for the lower and the upper bound are not mirror images: statement {k + 1} is `{xa[:70]}` in the lower block but `{yb[:70]}` in the upper block")
+    # if / elif chains: branches whose tests are mirror images
+    for q in PUBLIC + HELPERS:
+        f = ctx.func(q)
+        for node in ast.walk(f.node):
+            if not (isinstance(node, ast.If) and len(node.orelse) == 1 and isinstance(node.orelse[0], ast.If)):
+                continue
+            par = getattr(node, "_parent", None)
+            if isinstance(par, ast.If) and len(par.orelse) == 1 and par.orelse[0] is node:
+                continue      # not the head of the chain
+            chain = []
+            cur = node
+            while True:
+                chain.append((cur.test, cur.body))
+                if len(cur.orelse) == 1 and isinstance(cur.orelse[0], ast.If):
+                    cur = cur.orelse[0]
+                else:
+                    break
+            for (ta_, ba_), (tb_, bb_) in zip(chain, chain[1:]):
+                ta, tb = norm(ta_), norm(tb_)
+                if "xl" not in ta or _swap_lu(ta) != tb or ta == tb:
+                    continue
+                n += 1
+                ba, bb = [norm(s) for s in ba_], [norm(s) for s in bb_]
+                desc = f"{f.local}:{ta_.lineno} elif twins `{ta[:40]}` / `{tb[:40]}`"
+                if [_swap_lu(s) for s in ba] == bb:
+                    rep.ok("R15.16", desc)
+                else:
+                    mirrored = [_swap_lu(s) for s in ba]
+                    k = next((i for i in range(max(len(ba), len(bb))) if (mirrored[i] if i < len(mirrored) else None) != (bb[i] if i < len(bb) else None)), 0)
+                    rep.bad("R15.16", desc)
+                    rep.finding("R15.16", f, f"{(ba[k] if k < len(ba) else '<missing>')[:60]} / {(bb[k] if k < len(bb) else '<missing>')[:60]}", tb_.lineno,
+                                f"the branches for the lower and the upper bound are not mirror images: `{(ba[k] if k < len(ba) else '<missing>')[:70]}` vs `{(bb[k] if k < len(bb) else '<missing>')[:70]}`")
     # the if/else form: `if <lower limits first>: lower block else: upper block`
     for q in PUBLIC + HELPERS:
         f = ctx.func(q)
